@@ -32,6 +32,7 @@ func checkC13(c *Ctx) {
 	ruleSetextChar(c)
 	ruleEmphShrink(c)
 	ruleEmphCurrent(c)
+	ruleTabSync(c)
 	ruleHardBreakSet(c)
 	ruleSpecBoundsFor(c, "C13")
 }
@@ -1097,5 +1098,63 @@ func init() {
 			Why: "'**a **b*** c': the closer has one character left when it meets the second opener"},
 		Control{Name: "neg-strong-decision-with-locals", Props: []string{"C13", "C11"}, File: "inlines.go", Negative: true,
 			Old: "strong := opener.Span().Len() >= 2 && closer.Span().Len() >= 2", New: "openerLeft, closerLeft := opener.Span().Len(), closer.Span().Len()\n\t\t\tstrong := openerLeft > 1 && closerLeft > 1"},
+	)
+}
+
+// ---------------------------------------------------------------------------------------------
+// TAB-SYNC: the cached width of the tab under the cursor is recomputed whenever the cursor moves.
+
+func ruleTabSync(c *Ctx) {
+	c.Rule("TAB-SYNC", "lineParser caches, in tabRemaining, how many columns of the tab under the cursor are still unconsumed; Indent() and ConsumeIndent() trust it. In every method of lineParser that stores the cursor index (the field i), every path from such a store to a return (or panic) stores tabRemaining or calls a method that does (updateTabRemaining): a fast path that advances over a run of spaces and returns early leaves the cursor on a tab with a stale width of 0 — Indent() then reports no indentation while BytesAfterIndent() skips the tab, and the block that starts there gets a span that begins with the tab.")
+	p := c.P
+	storesTab := mayStoreFieldSet(p, "lineParser", "tabRemaining")
+	n := 0
+	for _, fn := range p.Funcs {
+		if fn.Pkg != p.CMs || fn.Blocks == nil {
+			continue
+		}
+		if rv := receiverOf(fn); rv == nil || typeName(deref(rv.Type())) != "lineParser" {
+			continue
+		}
+		refresh := func(in ssa.Instruction) bool {
+			switch x := in.(type) {
+			case *ssa.Store:
+				_, ok := isFieldAddr(x.Addr, "lineParser", "tabRemaining")
+				return ok
+			case ssa.CallInstruction:
+				if g := x.Common().StaticCallee(); g != nil && storesTab[g] && g != fn {
+					return true
+				}
+			}
+			return false
+		}
+		site := 0
+		eachInstr(fn, func(in ssa.Instruction) {
+			st, ok := in.(*ssa.Store)
+			if !ok {
+				return
+			}
+			if _, ok := isFieldAddr(st.Addr, "lineParser", "i"); !ok {
+				return
+			}
+			// constructors / reset: a store of a constant together with the rest of the state is not a cursor move
+			if _, isC := st.Val.(*ssa.Const); isC {
+				return
+			}
+			n++
+			site++
+			c.Check(!pathToExitAvoiding(st, refresh), "TAB-SYNC", fmt.Sprintf("%s:i-store#%d", shortFuncName(fn), site), st.Pos(), "the cursor index is stored and the method can return without recomputing the width of the tab under the cursor")
+		})
+	}
+	if n < 2 {
+		c.Undecided("TAB-SYNC", "instance-count", token.NoPos, fmt.Sprintf("%d stores of the cursor index found in lineParser methods; 2 confirmed by hand (Advance, ConsumeIndent)", n))
+	}
+}
+
+func init() {
+	addControls(
+		Control{Name: "consume-indent-space-run-returns-before-tab-refresh", Props: []string{"C13", "C04"}, File: "blocks.go",
+			Old: "\t\tcase p.i < len(p.line) && p.line[p.i] == ' ':\n\t\t\tn--\n\t\t\tp.col++\n", New: "\t\tcase p.i < len(p.line) && p.line[p.i] == ' ':\n\t\t\tn--\n\t\t\tp.col++\n\t\t\tif n == 0 {\n\t\t\t\tp.i++\n\t\t\t\treturn\n\t\t\t}\n", Expect: "TAB-SYNC/(*lineParser).ConsumeIndent",
+			Why: "'> \\t# foo': the heading's span then starts on the tab"},
 	)
 }
